@@ -196,6 +196,19 @@ def r5_isolation(cx):
         bad = [n for n in walk_body(h.body) if isinstance(n, (ast.Raise, ast.Break, ast.Return))]
         cx.require(not bad, bad[0] if bad else h, "handler '%s' neither re-raises nor leaves the loop" % ",".join(handler_names(h)), construct=short(bad[0]) if bad else "except %s" % ",".join(handler_names(h)))
     cx.require(not tr.finalbody and not has_exit(tr.body, (ast.Break, ast.Return)), tr, "no early exit from the per-entry body", construct="try body")
+    # a handler must itself be unable to fail: it may only read names that are bound on every way into it.  A name bound only inside the try body is
+    # unbound (or stale from an earlier entry) when the failure happened before its assignment - and an exception raised *inside* a handler leaves the loop.
+    bound_in_try = set(x.id for st_ in tr.body for x in ast.walk(st_) if isinstance(x, ast.Name) and isinstance(x.ctx, ast.Store))
+    bound_before = set(params(fn)) | set(x.id for x in ast.walk(lp.target) if isinstance(x, ast.Name))
+    for st_ in fn.body:
+        if st_ is lp:
+            break
+        bound_before |= set(x.id for x in ast.walk(st_) if isinstance(x, ast.Name) and isinstance(x.ctx, ast.Store))
+    for h in tr.handlers:
+        own = set([h.name]) if h.name else set()
+        used = [x for st_ in h.body for x in ast.walk(st_) if isinstance(x, ast.Name) and isinstance(x.ctx, ast.Load) and x.id in bound_in_try and x.id not in bound_before and x.id not in own]
+        cx.require(not used, used[0] if used else h, "handler '%s' reads only names bound before the try (a name assigned inside the try body may be unbound when the entry failed early)" % ",".join(handler_names(h)),
+                   construct="reads %s, assigned only inside the try body" % sorted(set(x.id for x in used)) if used else "except %s" % ",".join(handler_names(h)))
     # unknown component names raise inside the try
     h1 = sd.func("Hydration._hydrate_one", "C11.R5")
     called = [x for x in find_calls(tr.body) if U(x.func) == "self._hydrate_one"]
@@ -279,6 +292,23 @@ def r7_order(cx):
     cx.require(ok, rets[0] if rets else u, "unmarshal deserialises every element of the list in order", construct=short(rets[0]) if rets else "(none)")
 
 
+def r9_line_separator(cx):
+    """The writer joins lines with '\n' only; the loader must split on exactly that: str.splitlines() also splits on \x0b \x0c \x1c-\x1e \x85 U+2028 U+2029,
+    so a persisted line containing one of them would come back as several lines (and every later line would shift)."""
+    cx.rule("C11.R9", "the loader splits persisted content on the separator the writer joined it with", floor=2)
+    sf = cx.repo.module(SF)
+    wr = sf.func("ContentProvider.write", "C11.R9")
+    joins = [x for x in ast.walk(wr) if isinstance(x, ast.Call) and call_attr(x) == "join" and "_clean_content" in U(x)]
+    ok = len(joins) == 1 and const_str(joins[0].func.value) == "\n"
+    cx.require(ok, joins[0] if joins else wr, "the writer joins the cleaned lines with a single line feed", construct=short(joins[0]) if joins else "(no join)")
+    ld = sf.func("TextFileProvider.load", "C11.R9")
+    wide = [x for x in ast.walk(ld) if isinstance(x, ast.Call) and (call_attr(x) == "splitlines" or (call_attr(x) == "split" and not x.args))]
+    per_line = [x for x in ast.walk(ld) if isinstance(x, ast.Call) and call_attr(x) == "rstrip" and [const_str(a) for a in x.args] == ["\n"]] + \
+        [x for x in ast.walk(ld) if isinstance(x, ast.Call) and call_attr(x) == "split" and [const_str(a) for a in x.args] == ["\n"]]
+    cx.require(not wide and bool(per_line), wide[0] if wide else ld, "the loader takes the file's lines as separated by line feeds only (never str.splitlines(), which knows more separators)",
+               construct=short(wide[0]) if wide else "%d line-feed based splits" % len(per_line))
+
+
 def r8_no_recollect(cx):
     cx.rule("C11.R8", "specs loaded from the archive are not collected again", floor=3)
     dr = cx.repo.module("insights.core.dr")
@@ -320,3 +350,4 @@ def run(cx):
     cx.guard(r6_errors_persisted)
     cx.guard(r7_order)
     cx.guard(r8_no_recollect)
+    cx.guard(r9_line_separator)
